@@ -141,9 +141,16 @@ def run(chk):
     if "entities" not in g.IR:
         raise AnalysisError("grammar rule `entities` not found")
     ents = g.alternatives(g.IR["entities"])
-    ent_rules = [a.kw["name"] for a in ents if a.kind == "ref"]
-    if len(ent_rules) != len(ents):
-        raise AnalysisError("`entities` has an inline (non-named) alternative")
+    # inline (anonymous) alternatives get a synthetic rule name so that they are treated like named entities
+    ent_rules = []
+    for i, a in enumerate(ents):
+        if a.kind == "ref":
+            ent_rules.append(a.kw["name"])
+        else:
+            nm = f"<entities#{i}>"
+            g.IR[nm] = a
+            m.assigns.setdefault(nm, [m.assigns["entities"][0]])
+            ent_rules.append(nm)
 
     def ent_info(name):
         n = g.IR[name]
